@@ -102,6 +102,22 @@ structure JwtSt where
   prev   : String
   hist   : Hist
   clock  : Int
+  cb     : String := "none"     -- the kind of UnauthorizedCallback installed
+  disc   : String := ""         -- the secret an overridden WithPrevSecret named
+  cbFirst : Bool := false       -- the callback option comes before the secret options
+  opt    : String := "auto"     -- how the option list of Authorize spells the previous secret
+
+/-- how the wrapped (user) handler ends (`hk=`): an explicit status, a panic -/
+def outcomePanics (hk : String) : Bool := hk = "panic-err" || hk = "panic-str" || hk = "abort"
+
+def outcomeStatus (hk : String) (dflt : Nat) : Nat := if hk = "st404" then 404 else if hk = "st500" then 500 else dflt
+
+/-- the model's response with the user handler's outcome applied: the status it set goes out first (a later 500 of `flush`
+is superfluous), a panic after the reply was written leaves the (deferred) flush in place -/
+def applyOutcome (hk : String) (m : Resp) : Resp :=
+  if !m.ran then m
+  else if outcomePanics hk then { m with panic := true }
+  else { m with status := outcomeStatus hk m.status }
 
 def runJwtLine (r : Report) (sec : Nat) (st : JwtSt) (l : Line) : Report × JwtSt :=
   let fail (msg : String) := (r.mismatch sec l.idx msg (joinSp l.op), st)
@@ -121,16 +137,51 @@ def runJwtLine (r : Report) (sec : Nat) (st : JwtSt) (l : Line) : Report × JwtS
                sigOk := fun s => (s = st.secret && sigcur) || (s = st.prev && st.prev ≠ "" && sigprev),
                exp := (← parseTimeClaim (← kv? o "exp")), nbf := (← parseTimeClaim (← kv? o "nbf")),
                iat := (← parseTimeClaim (← kv? o "iat")), claims := claims }
-      let obsOut : Option (AuthOut String) := do
+      let obsOut : Option (AuthOut String × Bool) := do
         let ran ← kv? o "ran"
         let ctx ← parsePairs (← kv? o "ctx")
-        pure { ran := ran ≠ "0", status := (← (← kv? o "status").toNat?), ctx := ctx }
+        let stS ← kv? o "status"
+        if stS ≠ "PANIC" ∧ stS.toNat?.isNone then none
+        pure ({ ran := ran ≠ "0", status := stS.toNat?.getD 0, ctx := ctx }, stS = "PANIC")
       match facts, obsOut with
-      | some f, some out =>
+      | some f, some (out, outPanic) =>
         let clock := st.clock + clk
         let res := authorize (jwtVerify f now) st.hist st.secret st.prev clock
-        let m := res.2
+        let hk := kvStr args "hk"
+        let userCb := st.cb ≠ "none" ∧ st.cb ≠ "nil"
+        -- the gate's model, then the outcome kinds of the user-supplied functions: the wrapped handler (when it runs) and the
+        -- UnauthorizedCallback (when the request is rejected: called once, with the error, BEFORE the 401 is written)
+        let mPanic : Bool := if res.2.ran then outcomePanics hk else (st.cb = "panic-err" || st.cb = "panic-str")
+        let mStatus : Nat :=
+          if res.2.ran then outcomeStatus hk res.2.status
+          else unauthorizedStatus (if st.cb = "status" then some 403 else if st.cb = "body" then some 200 else none)
+        let m : AuthOut String := { ran := res.2.ran, status := mStatus, ctx := res.2.ctx }
+        let mUcb : Nat := if !res.2.ran ∧ userCb then 1 else 0
         let r := { r with ops := r.ops + 1 }
+        let r := r.addCover s!"jwt-options-{st.opt}{if st.prev = "" then "-no-previous" else "-previous"}"
+        -- the option list as the section spelled it, folded by the model: the previous secret in force must be the section's
+        let cbOpt : List AuthOption := if st.cb = "none" then [] else [.callback userCb]
+        let secretOpts : Option (List AuthOption) :=
+          if st.opt = "auto" then some (if st.prev = "" then [] else [.prevSecret st.prev])
+          else if st.opt = "none" then some []
+          else if st.opt = "prev" then some [.prevSecret st.prev]
+          else if st.opt = "prev-twice" then some [.prevSecret st.disc, .prevSecret st.prev]
+          else none
+        let r := match secretOpts with
+          | some so =>
+            let all := if st.cbFirst then cbOpt ++ so else so ++ cbOpt
+            if (authOptions all).prev ≠ st.prev ∨ (authOptions all).callback ≠ userCb then
+              r.mismatch sec l.idx s!"options in force: prev={(authOptions all).prev}" s!"section: prev={st.prev}"
+            else r
+          | none => r.mismatch sec l.idx "bad-option-kind" st.opt
+        let r := r.addCover s!"jwt-callback-{st.cb}{if res.2.ran then "-not-called" else "-called"}"
+        let r := if res.2.ran then r.addCover s!"jwt-handler-outcome-{if hk = "" then "ok" else hk}" else r
+        let r := if kvNat o "ucb" 0 ≠ mUcb ∨ kvNat o "ucberr" 0 ≠ mUcb ∨ outPanic ≠ mPanic then
+            r.mismatch sec l.idx s!"ucb={mUcb} ucberr={mUcb} panic={mPanic}" s!"ucb={kvNat o "ucb" 0} ucberr={kvNat o "ucberr" 0} panic={outPanic}"
+          else r
+        -- a panicking callback / handler leaves no status of the gate's own to look at; a callback that answers itself owns the status
+        let out : AuthOut String := if outPanic then { out with status := m.status } else out
+        let ownStatus : Bool := !userCb || st.cb = "quiet"
         let r := r.addCover (if m.ran then "jwt-accept" else "jwt-reject")
         let r := r.addCover ("jwt-" ++
           (if !f.present then "absent" else if f.segs ≠ 3 then "segments" else if !f.hdrOk then "bad-header"
@@ -149,9 +200,12 @@ def runJwtLine (r : Report) (sec : Nat) (st : JwtSt) (l : Line) : Report × JwtS
         let show_ (x : AuthOut String) := s!"ran={if x.ran then 1 else 0} status={x.status} ctx={showPairs x.ctx}"
         let r := if m.ran ≠ out.ran ∨ m.status ≠ out.status ∨ m.ctx ≠ out.ctx then
           r.mismatch sec l.idx (show_ m) (show_ out) else r
-        let r := match jwtMonitor f now st.secret st.prev out with
-          | some msg => r.violation sec l.idx s!"{msg} [{show_ out}]"
+        let r := match jwtMonitor f now st.secret st.prev (if ownStatus ∨ out.ran then out else { out with status := 401 }) with
+          | some msg => r.violation sec l.idx s!"{msg} [{show_ out}] [options {st.opt}, callback {st.cb}]"
           | none => r
+        let r := match jwtCompleteMonitor f now st.secret st.prev out with
+          | some msg => r.violation sec l.idx s!"{msg} [{show_ out}] [options {st.opt}, callback {st.cb}]"
+          | none => if out.ran then r.addCover "jwt-valid-credential-reached-the-handler" else r
         let r := labelCheck r sec l.idx "jwt" (kv? args "mut") true out.ran (show_ out)
         let r := if kv? args "via" = some "wire" then r.addCover "jwt-via-wire" else r
         let r := if kvNat o "nauth" 0 > 1 then r.addCover "jwt-authorization-sent-twice" else r
@@ -292,7 +346,7 @@ def wholeBody (limit cl : Int) (body : Bytes) : Bool :=
   else if cl < 0 then decide ((body.length : Int) ≤ (if limit > 0 then limit else maxBytes))
   else false
 
-def runCsLine (r : Report) (sec : Nat) (cfg : CsCfg) (l : Line) : Report :=
+def runCsLine (r : Report) (sec : Nat) (cfg : CsCfg) (scb : String) (l : Line) : Report :=
   let fail (msg : String) := r.mismatch sec l.idx msg (joinSp l.op)
   match l.op with
   | "req" :: a =>
@@ -333,9 +387,18 @@ def runCsLine (r : Report) (sec : Nat) (cfg : CsCfg) (l : Line) : Report :=
         fail "rsa-oracle-miss (the harness stated no RSA fact for the effective fingerprint/secret pair)"
       else
       let inner : Inner := fun _ => reply
-      let m0 := contentSecurity (oracleCipher table 0xEE) env cfg req inner
-      let m1 := contentSecurity (oracleCipher table 0xDD) env cfg req inner
+      let hk := kvStr a "hk"
+      -- user UnsignedCallbacks replace the default one: a failed verification ends with them (200 when they write nothing)
+      let gate (C : BlockCipher) : Resp :=
+        if scb = "none" then contentSecurity C env cfg req inner
+        else contentSecurityWithCallbacks C env cfg req inner (if scb = "status" then 401 else 200)
+      let m0 := applyOutcome hk (gate (oracleCipher table 0xEE))
+      let m1 := applyOutcome hk (gate (oracleCipher table 0xDD))
       let r := { r with ops := r.ops + 1 }
+      let mScb : Nat := if scb = "none" ∨ !csVerificationFails env cfg req then 0 else if scb = "two" then 2 else 1
+      let r := if kvNat o "scb" 0 ≠ mScb then r.mismatch sec l.idx s!"scb={mScb}" s!"scb={kvNat o "scb" 0}" else r
+      let r := r.addCover s!"cs-unsigned-callback-{scb}-{if mScb = 0 then "not-called" else "called"}{if cfg.strict then "" else "-loose"}"
+      let r := if m0.ran then r.addCover s!"cs-handler-outcome-{if hk = "" then "ok" else hk}" else r
       let hdrRes := parseContentSecurity env req
       let gated := gatedMethods.contains req.method
       let frame := frameName req.cl req.body
@@ -366,13 +429,19 @@ def runCsLine (r : Report) (sec : Nat) (cfg : CsCfg) (l : Line) : Report :=
           | none => r
         | _ => r
       let r := if !cfg.strict then r.addCover "cs-nonstrict" else r
+      let r := if cfg.tol = 0 then r.addCover (if m0.ran then "cs-zero-tolerance-same-second-accepted" else "cs-zero-tolerance-rejected")
+               else if cfg.tol < 0 then r.addCover (if m0.ran ∧ cfg.strict ∧ gated then "cs-negative-tolerance-ACCEPTED" else "cs-negative-tolerance-nothing-passes") else r
       let r := compareResp r sec l.idx m0 m1 obs
-      let r := match csMonitor env cfg req obs with
-        | some msg => r.violation sec l.idx s!"{msg} [{showResp obs}]"
+      -- with user callbacks the status of a refused request is theirs (not alarmed); that the handler does not run is checked
+      let r := match (if scb = "none" ∨ obs.ran then csMonitor env cfg req obs else none) with
+        | some msg => r.violation sec l.idx s!"{msg} [{showResp obs}]{if scb = "none" then "" else s!" [user callbacks: {scb}]"}"
         | none => r
       let r := match csBodyMonitor env cfg req obs with
         | some msg => r.violation sec l.idx s!"{msg} [{showResp obs}]"
         | none => r
+      let r := match csCompleteMonitor env cfg req obs with
+        | some msg => r.violation sec l.idx s!"{msg} [{showResp obs}]"
+        | none => if csCovers env cfg req ∧ obs.ran then r.addCover "cs-covering-signature-reached-the-handler" else r
       let r := labelCheck r sec l.idx "cs" (kv? a "mut") (cfg.strict && gated && req.uri.isEmpty) obs.ran (showResp obs)
       -- encrypted round trip, for verified encrypted requests whose whole body the framing delivers
       let r := match hdrRes with
@@ -411,9 +480,11 @@ def runCryptLine (r : Report) (sec : Nat) (key : Bytes) (limit : Int) (l : Line)
     | some (body, reply, cl, table), some obs =>
       let inner : Inner := fun _ => reply
       let C := oracleCipher table 0xEE
-      let m0 := cryptionHandler C limit key cl body inner
-      let m1 := cryptionHandler (oracleCipher table 0xDD) limit key cl body inner
+      let hk := kvStr a "hk"
+      let m0 := applyOutcome hk (cryptionHandler C limit key cl body inner)
+      let m1 := applyOutcome hk (cryptionHandler (oracleCipher table 0xDD) limit key cl body inner)
       let r := { r with ops := r.ops + 1 }
+      let r := if m0.ran then r.addCover s!"crypt-handler-outcome-{if hk = "" then "ok" else hk}{if reply.isEmpty then "-no-reply" else "-reply"}" else r
       let frame := frameName cl body
       let content : Except String Bytes :=
         if cl = 0 then .error "crypt-no-body-passthrough"
@@ -475,11 +546,38 @@ def parseRouteOption (t : String) : Option RouteOption :=
   else if t = "sigl" then some (.withSignature false true)
   else if t = "sign" then some (.withSignature false false)
   else if t = "sigs" then some (.withSignature true false)
+  else if t = "sig2" ∨ t = "sigb" ∨ t = "sigx" ∨ t = "sigd" ∨ t = "sigt" ∨ t = "sigm" then some (.withSignature true true)
+  else if t = "jwtte" then some (.withJwtTransition true)
   else if t = "pfx" ∨ t = "prio" ∨ t = "mb" ∨ t = "to" then some .other
   else none
 
 def parseGroup (g : String) : Option (List RouteOption) :=
   if g = "-" then some [] else (g.splitOn "+").mapM parseRouteOption
+
+/-- the `PrivateKeys` a signature option token configures (fingerprint, key file), `none` = not a signature option -/
+def optionKeys (t : String) : Option (List KeyConf) :=
+  if t = "sig" ∨ t = "sigl" ∨ t = "sigt" then some [("good", "k1")]
+  else if t = "sigm" then some [("good", "missing")]
+  else if t = "sig2" then some [("alt", "k2")]
+  else if t = "sigb" then some [("good", "k1"), ("alt", "k2")]
+  else if t = "sigx" then some [("good", "k2")]
+  else if t = "sigd" then some [("good", "k2"), ("good", "k1")]
+  else if t = "sign" ∨ t = "sigs" then some []
+  else none
+
+/-- the key list in force for a group: `WithSignature` assigns the whole list, the last such option wins -/
+def groupKeys (g : String) : List KeyConf :=
+  if g = "-" then [] else ((g.splitOn "+").filterMap optionKeys).getLast?.getD []
+
+/-- the key file the group's OWN decrypters hold for a fingerprint (`loadDecrypters` with every file loadable) -/
+def keyLoader (file : String) : Option String := if file = "missing" then none else some file
+
+def ownKeyFile (keys : List KeyConf) (fp : String) : Option String :=
+  (loadDecrypters keyLoader keys).bind fun m => decrypterOf m fp
+
+/-- the tolerance in force for a group, seconds: the last signature option's -/
+def groupTolShort (g : String) : Bool :=
+  ((g.splitOn "+").filter fun t => (optionKeys t).isSome).getLast? = some "sigt"
 
 def parseMw (s : String) : Option MwConf :=
   match s.toList.map (fun ch => decide (ch = '1')) with
@@ -496,6 +594,7 @@ structure RestCfg where
   uses   : List String
   cb     : Bool
   groups : List (List RouteOption)
+  keys   : List (List KeyConf) := []      -- per group: the PrivateKeys of its signature setting
 
 structure RestSt where
   bound : Option Nat := none      -- after `bind`: the number of groups that were bound
@@ -506,9 +605,10 @@ def parseRestCfg (cfg : List String) : Option RestCfg := do
   let ncm := kvNat cfg "ncm" 0
   let nuse := kvNat cfg "nuse" 0
   let groups ← ((← kv? cfg "groups").splitOn ",").mapM parseGroup
+  let keys := ((← kv? cfg "groups").splitOn ",").map groupKeys
   let custom ← if chainKind = "custom" then some (some ((List.range ncm).map fun i => s!"cm{i}"))
                else if chainKind = "native" then some none else none
-  pure { custom := custom, mw := mw, uses := (List.range nuse).map fun i => s!"use{i}", cb := kvNat cfg "cb" 0 = 1, groups := groups }
+  pure { custom := custom, mw := mw, uses := (List.range nuse).map fun i => s!"use{i}", cb := kvNat cfg "cb" 0 = 1, groups := groups, keys := keys }
 
 def groupName (o : RouteOpts) : String :=
   (if o.jwt then (if o.prev then "jwt-transition" else "jwt") else "nojwt") ++ "-" ++
@@ -523,8 +623,14 @@ def runRestLine (r : Report) (sec : Nat) (cfg : RestCfg) (st : RestSt) (l : Line
   match l.op with
   | ["bind"] =>
     -- bindRoutes stops at the first group whose verifier cannot be built
-    let firstBad := (cfg.groups.map fun g => (bindRoute cfg.custom cfg.mw (applyOptions g) cfg.uses).isNone).findIdx? (· = true)
-    let model := match firstBad with | some _ => "err=signature-config" | none => "ok"
+    let verdicts := (List.range cfg.groups.length).map fun i =>
+      verifierFor keyLoader (applyOptions (cfg.groups.getD i [])) (cfg.keys.getD i [])
+    let firstBad := (verdicts.map fun v => match v with | .ok _ => false | .error _ => true).findIdx? (· = true)
+    let model := match firstBad.bind (verdicts[·]?) with
+      | some (.error .signatureConfig) => "err=signature-config"
+      | some (.error .keyFile) => "err=other"
+      | _ => "ok"
+    let r := if model = "err=other" then r.addCover "rest-bind-error-key-file-cannot-be-loaded" else r
     let r := { r with ops := r.ops + 1 }
     let r := r.addCover (if firstBad.isSome then "rest-bind-error-strict-signature-without-keys" else "rest-bind-ok")
     let r := r.addCover s!"rest-chain-{chainName}"
@@ -573,7 +679,7 @@ def runRestLine (r : Report) (sec : Nat) (cfg : RestCfg) (st : RestSt) (l : Line
               match bindRoute cfg.custom cfg.mw opts cfg.uses with
               | some chn =>
                 let run := runChain (gateVerdict (authVerdict authOut) (csGateVerdict opts.sigStrict cfg.cb gated covered)) chn
-                let mctx := if run.ran ∧ opts.jwt then authOut.ctx else []
+                let mctx := (restServe opts cfg.uses chn authOut (csGateVerdict opts.sigStrict cfg.cb gated covered)).ctx
                 let mucb := if cfg.cb ∧ run.saw.contains authorizeName ∧ !authOut.ran then 1 else 0
                 let mscb := if cfg.cb ∧ run.saw.contains contentSecurityName ∧ gated ∧ !covered then 1 else 0
                 (run, mctx, mucb, mscb)
@@ -583,9 +689,30 @@ def runRestLine (r : Report) (sec : Nat) (cfg : RestCfg) (st : RestSt) (l : Line
           let mseen := if run.ran then sentBody else []
           let show_ (ran : Bool) (status : Nat) (ctx : List (String × String)) (cm use ucb scb : Nat) (seen : Bytes) :=
             s!"ran={if ran then 1 else 0} status={status} ctx={showPairs ctx} cm={cm} use={use} ucb={ucb} scb={scb} seen={toHex seen}"
-          let mshow := show_ run.ran run.status model.2.1 (count "cm" run.saw) (count "use" run.saw) model.2.2.1 model.2.2.2 mseen
+          let musesRan := (run.saw.filter fun n => cfg.uses.contains n).length     -- = restServe's usesRan
+          let mshow := show_ run.ran run.status model.2.1 (count "cm" run.saw) musesRan model.2.2.1 model.2.2.2 mseen
           let oshow := show_ ran status ctx cm use ucb scb seen
           let r := if mshow ≠ oshow then r.mismatch sec l.idx mshow oshow else r
+          -- the group's OWN decrypters (model: `loadDecrypters` over the group's key list) against the harness' fact
+          let own := cfg.keys.getD g []
+          let fpSent := ((kv? o "fp").bind unhexStr).getD ""
+          let encTo := kvStr o "enc"
+          let ownHas : Bool := decide (fpSent ≠ "") && decide (ownKeyFile own fpSent = some encTo)
+          let r := if covered ∧ !ownHas then
+              r.mismatch sec l.idx s!"the group's own decrypters hold no key {encTo} for fingerprint {fpSent}: not covered" "csok=1"
+            else r
+          let foreign : Bool := decide (fpSent ≠ "") && !ownHas &&
+            (List.range cfg.groups.length).any fun j => decide (j ≠ g) && decide (ownKeyFile (cfg.keys.getD j []) fpSent = some encTo)
+          let r := if foreign ∧ opts.sig ∧ opts.sigKeys then
+              r.addCover (if opts.sigStrict then (if run.ran then "rest-key-of-another-group-accepted" else
+                            (if (ownKeyFile own fpSent).isSome then "rest-key-of-another-group-rejected-same-fingerprint" else "rest-key-of-another-group-rejected"))
+                          else "rest-key-of-another-group-loose")
+            else r
+          let r := if ownHas ∧ own.length > 1 then r.addCover (if (own.map (·.1)).eraseDups.length < own.length then "rest-repeated-fingerprint-later-file-wins" else "rest-group-with-two-keys") else r
+          let r := if ((cfg.keys.filter (fun k => !k.isEmpty)).eraseDups.length > 1) then r.addCover "rest-server-with-different-keys-per-group" else r
+          let r := if kvStr a "cs" = "stale-short" ∨ kvStr a "cs" = "future-short" then
+              r.addCover (if covered then "rest-short-stale-accepted-by-long-tolerance-group" else "rest-short-stale-rejected")
+            else r
           -- cover
           let r := r.addCover s!"rest-tok-{kvStr a "tok"}"
           let r := r.addCover s!"rest-cs-{kvStr a "cs"}"
@@ -599,7 +726,10 @@ def runRestLine (r : Report) (sec : Nat) (cfg : RestCfg) (st : RestSt) (l : Line
           if g < nbound then
             match restMonitor opts gated credOk covered f.claims cfg.uses.length ran status ctx use with
             | some msg => (r.violation sec l.idx s!"{msg} [chain {chainName}, group {groupName opts}, tok={kvStr a "tok"} cs={kvStr a "cs"}] [{oshow}]", st)
-            | none => (r, st)
+            | none =>
+              match restCompleteMonitor opts gated credOk covered (opts.sigStrict || cfg.cb) ran status with
+              | some msg => (r.violation sec l.idx s!"{msg} [chain {chainName}, group {groupName opts}, tok={kvStr a "tok"} cs={kvStr a "cs"}] [{oshow}]", st)
+              | none => ((if ran ∧ (opts.jwt ∨ (opts.sig ∧ opts.sigKeys)) then r.addCover "rest-valid-credentials-reached-the-handler" else r), st)
           else (r, st)
         | _, _ => fail "unparsable-observation"
     | _, _, _, _ => fail "bad-op"
@@ -651,14 +781,22 @@ def runSection (r : Report) (s : Section) : Report :=
     match (kv? s.cfg "secret").bind unhexStr, (kv? s.cfg "prev").bind unhexStr, (kv? s.cfg "t0").bind String.toInt? with
     | some secret, some prev, some t0 =>
       (s.lines.foldl (fun (acc : Report × JwtSt) l => runJwtLine acc.1 s.idx acc.2 l)
-        (r, { secret := secret, prev := prev, hist := { resetTime := t0 }, clock := t0 })).1
+        (r, { secret := secret, prev := prev, hist := { resetTime := t0 }, clock := t0, cb := kvStr s.cfg "cb" "none",
+              opt := kvStr s.cfg "opt" "auto", disc := ((kv? s.cfg "disc").bind unhexStr).getD "",
+              cbFirst := kvStr s.cfg "cbpos" "last" = "first" })).1
     | _, _, _ => r.mismatch s.idx 0 "bad-section" (joinSp s.cfg)
   | some "cs" =>
-    let cfg : CsCfg := { strict := kvNat s.cfg "strict" 1 = 1, tol := kvInt s.cfg "tol" 60, limit := kvInt s.cfg "limit" 1048576 }
-    s.lines.foldl (fun acc l => runCsLine acc s.idx cfg l) r
+    -- ctor=plain: ContentSecurityHandler(decrypters, tolerance, strict) = the limit is the package's maxBytes
+    let plain := kvStr s.cfg "ctor" "limit" = "plain"
+    let cfg : CsCfg := { strict := kvNat s.cfg "strict" 1 = 1, tol := kvInt s.cfg "tol" 60,
+                         limit := if plain then maxBytes else kvInt s.cfg "limit" 1048576 }
+    let r := r.addCover (if plain then "cs-constructor-ContentSecurityHandler" else "cs-constructor-LimitContentSecurityHandler")
+    s.lines.foldl (fun acc l => runCsLine acc s.idx cfg (kvStr s.cfg "scb" "none") l) r
   | some "crypt" =>
+    let plain := kvStr s.cfg "ctor" "limit" = "plain"
+    let r := r.addCover (if plain then "crypt-constructor-CryptionHandler" else "crypt-constructor-LimitCryptionHandler")
     match (kv? s.cfg "key").bind unhex with
-    | some key => s.lines.foldl (fun acc l => runCryptLine acc s.idx key (kvInt s.cfg "limit" 1048576) l) r
+    | some key => s.lines.foldl (fun acc l => runCryptLine acc s.idx key (if plain then maxBytes else kvInt s.cfg "limit" 1048576) l) r
     | none => r.mismatch s.idx 0 "bad-section" (joinSp s.cfg)
   | some "tp" =>
     let t0 := kvInt s.cfg "t0" 0
